@@ -10,6 +10,7 @@ import (
 	"strconv"
 	"strings"
 	stdsync "sync"
+	"sync/atomic"
 	"testing"
 	"time"
 
@@ -101,12 +102,13 @@ type harness struct {
 	latMax time.Duration
 	fault  map[[2]int]string
 
-	mu    stdsync.Mutex // never held across a sleep
-	seq   int64
-	calls []*callRec
-	tops  []*topRec
-	done  bool
-	leak  string
+	mu       stdsync.Mutex // never held across a sleep
+	seq      int64
+	calls    []*callRec
+	tops     []*topRec
+	done     bool
+	leak     string
+	epilogue string // "check|detail" of a violation found by the subscription epilogue
 }
 
 func (h *harness) event(actor, typ string, step int, format string, a ...any) {
@@ -169,6 +171,49 @@ func (h *harness) stamp() int64 {
 type scripted struct {
 	h *harness
 	l int
+	// epilogue (subscriptions and re-registration): generation of the object
+	// registered for ledger l, and what reached this object in the epilogue
+	gen  int
+	epi  atomic.Bool
+	mu   stdsync.Mutex
+	nEpi map[string]int
+	subs []*scriptedSub
+}
+
+// scriptedSub is a ledger's adjudicator subscription: events are handed out
+// by Next as the harness emits them; Close ends it.
+type scriptedSub struct {
+	ev     chan channel.AdjudicatorEvent
+	closed chan struct{}
+	once   stdsync.Once
+}
+
+func (s *scriptedSub) Next() channel.AdjudicatorEvent {
+	select {
+	case e := <-s.ev:
+		return e
+	case <-s.closed:
+		return nil
+	}
+}
+
+func (s *scriptedSub) Err() error { <-s.closed; return nil }
+
+func (s *scriptedSub) Close() error { s.once.Do(func() { close(s.closed) }); return nil }
+
+func (x *scripted) epiCount(method string) {
+	x.mu.Lock()
+	if x.nEpi == nil {
+		x.nEpi = map[string]int{}
+	}
+	x.nEpi[method]++
+	x.mu.Unlock()
+}
+
+func (x *scripted) epiN(method string) int {
+	x.mu.Lock()
+	defer x.mu.Unlock()
+	return x.nEpi[method]
 }
 
 var errScripted = errors.New("scripted sub-call failure")
@@ -227,6 +272,10 @@ func (x *scripted) call(ctx context.Context, method string, step int, idx channe
 }
 
 func (x *scripted) Register(ctx context.Context, req channel.AdjudicatorReq, _ []channel.SignedState) error {
+	if x.epi.Load() {
+		x.epiCount("register")
+		return nil
+	}
 	return x.call(ctx, "register", int(req.Tx.Version), req.Idx)
 }
 
@@ -239,7 +288,15 @@ func (x *scripted) Progress(ctx context.Context, req channel.ProgressReq) error 
 }
 
 func (x *scripted) Subscribe(context.Context, channel.ID) (channel.AdjudicatorSubscription, error) {
-	return nil, errors.New("not scripted")
+	if !x.epi.Load() {
+		return nil, errors.New("not scripted")
+	}
+	x.epiCount("subscribe")
+	sub := &scriptedSub{ev: make(chan channel.AdjudicatorEvent, 1), closed: make(chan struct{})}
+	x.mu.Lock()
+	x.subs = append(x.subs, sub)
+	x.mu.Unlock()
+	return sub, nil
 }
 
 func (x *scripted) Fund(ctx context.Context, req channel.FundingReq) error {
@@ -429,22 +486,154 @@ func (h *harness) run() {
 	wg.Wait()
 	// quiescence: every sub-call (also the ones still running when their call
 	// returned early, and the ones that ignore their context) has ended
-	time.Sleep(2 * time.Hour)
-	if runtime.NumGoroutine() > baseline {
-		buf := make([]byte, 1<<20)
-		buf = buf[:runtime.Stack(buf, true)]
-		for _, g := range strings.Split(string(buf), "\n\n") {
-			if strings.Contains(g, "perun.network/go-perun/channel/multi.") {
-				h.leak = g
-				break
+	quiesce := func(d time.Duration) {
+		time.Sleep(d)
+		if h.leak == "" && runtime.NumGoroutine() > baseline {
+			buf := make([]byte, 1<<20)
+			buf = buf[:runtime.Stack(buf, true)]
+			for _, g := range strings.Split(string(buf), "\n\n") {
+				if strings.Contains(g, "perun.network/go-perun/channel/multi.") {
+					h.leak = g
+					break
+				}
 			}
+			s.Count("probe.goroutines_above_baseline_at_end", 1)
 		}
-		s.Count("probe.goroutines_above_baseline_at_end", 1)
+	}
+	quiesce(2 * time.Hour)
+	if sc.Cfg("sub_phase", 0) == 1 && h.leak == "" {
+		// (only now: a sub-call of the calls above that starts late must not be
+		// mistaken for one of the epilogue)
+		h.subscriptionEpilogue(adj, ledgers)
+		quiesce(time.Hour)
 	}
 	h.flushEvents()
 	h.mu.Lock()
 	h.done = true
 	h.mu.Unlock()
+}
+
+// subscriptionEpilogue runs after the calls of the run, on the same
+// multi-ledger adjudicator: a subscription reaches every registered ledger's
+// adjudicator exactly once and relays its events; after a ledger has been
+// registered again with another adjudicator object, requests and a second
+// subscription reach the new object and not the replaced one.
+func (h *harness) subscriptionEpilogue(adj *pmulti.Adjudicator, ledgers []*scripted) {
+	s := h.s
+	var regd []int
+	for l := range universe {
+		if h.reg&(1<<l) != 0 {
+			regd = append(regd, l)
+			ledgers[l].epi.Store(true)
+		}
+	}
+	if len(regd) == 0 {
+		return
+	}
+	s.Count("op.subscribe", 1)
+	fail := func(check, format string, a ...any) {
+		if h.epilogue == "" {
+			h.epilogue = check + "|" + fmt.Sprintf(format, a...)
+		}
+	}
+	ctx, cancel := context.WithTimeout(context.Background(), 10*time.Second)
+	defer cancel()
+	// next takes one event from a multi-ledger subscription (nil: none within a second)
+	next := func(sub channel.AdjudicatorSubscription) channel.AdjudicatorEvent {
+		got := make(chan channel.AdjudicatorEvent, 1)
+		go func() { got <- sub.Next() }()
+		select {
+		case e := <-got:
+			return e
+		case <-time.After(time.Second):
+			return nil
+		}
+	}
+	subscribeAll := func(round string, objs map[int]*scripted, stale []*scripted) channel.AdjudicatorSubscription {
+		before := map[*scripted]int{}
+		for _, x := range objs {
+			before[x] = x.epiN("subscribe")
+		}
+		for _, x := range stale {
+			before[x] = x.epiN("subscribe")
+		}
+		sub, err := adj.Subscribe(ctx, channel.ID{7})
+		if err != nil || sub == nil {
+			fail("C20.subscribe-failed", "%s: Subscribe on the multi-ledger adjudicator failed although every ledger's Subscribe succeeds: %v", round, err)
+			return nil
+		}
+		for l, x := range objs {
+			if n := x.epiN("subscribe") - before[x]; n != 1 {
+				fail("C20.subscribe-ledger-count", "%s: the adjudicator registered for ledger %d got %d Subscribe calls from one multi-ledger Subscribe", round, l, n)
+			}
+		}
+		for _, x := range stale {
+			if n := x.epiN("subscribe") - before[x]; n != 0 {
+				fail("C20.subscribe-reached-replaced-adjudicator", "%s: an adjudicator that had been replaced by a later registration for ledger %d got %d Subscribe calls", round, x.l, n)
+			}
+		}
+		// every ledger's events come out of the multi-ledger subscription
+		for l, x := range objs {
+			x.mu.Lock()
+			var ls *scriptedSub
+			if len(x.subs) > 0 {
+				ls = x.subs[len(x.subs)-1]
+			}
+			x.mu.Unlock()
+			if ls == nil {
+				continue
+			}
+			ev := channel.NewRegisteredEvent(channel.ID{7}, &channel.ElapsedTimeout{}, uint64(100+l), nil, nil)
+			ls.ev <- ev
+			if got := next(sub); got != ev {
+				fail("C20.subscription-event-lost", "%s: an event emitted by the adjudicator registered for ledger %d did not come out of the multi-ledger subscription within a simulated second", round, l)
+			}
+		}
+		return sub
+	}
+	cur := map[int]*scripted{}
+	for _, l := range regd {
+		cur[l] = ledgers[l]
+	}
+	sub1 := subscribeAll("first subscription", cur, nil)
+	if sub1 == nil {
+		return
+	}
+	// one ledger is registered again, with another adjudicator object
+	l := regd[int(kernel.Derive(s.Sc.Seed, "reregistered-ledger")%uint64(len(regd)))]
+	old := ledgers[l]
+	repl := &scripted{h: h, l: l, gen: old.gen + 1}
+	repl.epi.Store(true)
+	adj.RegisterAdjudicator(&ledgerKey{backend: universe[l].backend, id: universe[l].id}, repl)
+	ledgers[l], cur[l] = repl, repl
+	s.Count("fault.ledger-registered-again", 1)
+	state := &channel.State{Version: 1, Allocation: channel.Allocation{Assets: []channel.Asset{newAsset(l, 0)}}}
+	req := channel.AdjudicatorReq{Params: &channel.Params{ChallengeDuration: 1}, Tx: channel.Transaction{State: state}}
+	if err := adj.Register(ctx, req, nil); err != nil {
+		fail("C20.fails-although-all-succeeded", "a register request after ledger %d was registered again failed: %v", l, err)
+	}
+	if n, o := repl.epiN("register"), old.epiN("register"); n != 1 || o != 0 {
+		fail("C20.request-reached-replaced-adjudicator", "after ledger %d was registered again a register request reached the new adjudicator %d times and the replaced one %d times", l, n, o)
+	}
+	sub2 := subscribeAll("subscription after a ledger was registered again", cur, []*scripted{old})
+	// (the user of a subscription closes it and collects its error, which is
+	// what lets the subscription's own goroutines end)
+	for _, sub := range []channel.AdjudicatorSubscription{sub1, sub2} {
+		if sub == nil {
+			continue
+		}
+		_ = sub.Close()
+		errc := make(chan error, 1)
+		go func() { errc <- sub.Err() }()
+		select {
+		case err := <-errc:
+			if err != nil {
+				fail("C20.subscription-error", "a closed multi-ledger subscription reports an error although no ledger subscription had one: %v", err)
+			}
+		case <-time.After(time.Second):
+			fail("C20.subscription-err-blocks", "Err of a closed multi-ledger subscription did not return within a simulated second")
+		}
+	}
 }
 
 // ---- oracle -----------------------------------------------------------------------------
@@ -456,6 +645,10 @@ func (h *harness) check(res *kernel.Result) {
 			lines = lines[:12]
 		}
 		res.Fail(-1, "C20.goroutine-leak", "two simulated hours after the last call a goroutine of channel/multi is still alive: %s", strings.Join(lines, " | "))
+	}
+	if h.epilogue != "" && res.Violation == nil {
+		p := strings.SplitN(h.epilogue, "|", 2)
+		res.Fail(-1, p[0], "%s", p[1])
 	}
 	sort.SliceStable(h.tops, func(i, j int) bool { return h.tops[i].step < h.tops[j].step })
 	for _, top := range h.tops {
